@@ -1,13 +1,16 @@
 (* C08 -- executable mirror (layer L) of the mock matching machinery:
-     src/CppUTestExt/MockSupport.cpp          (expectNCalls, actualCall, checkExpectations, clear, strictOrder, ignoreOtherCalls)
-     src/CppUTestExt/MockActualCall.cpp       (MockCheckedActualCall: withName, checkInputParameter, completeCallWhenMatchIsFound,
-                                               discardCurrentlyMatchingExpectations, checkExpectations, returnValue)
-     src/CppUTestExt/MockExpectedCall.cpp     (MockCheckedExpectedCall: flags, counters, call-order window, callWasMade, reset)
+     src/CppUTestExt/MockSupport.cpp          (mock("scope"), clone, expectNCalls, actualCall, checkExpectations, expectedCallsLeft,
+                                               clear, strictOrder, ignoreOtherCalls, enable/disable and how each reaches the scopes)
+     src/CppUTestExt/MockActualCall.cpp       (MockCheckedActualCall: withName, checkInputParameter, checkOutputParameter, onObject,
+                                               completeCallWhenMatchIsFound, copyOutputParameters, discardCurrentlyMatchingExpectations,
+                                               checkExpectations, returnValue)
+     src/CppUTestExt/MockExpectedCall.cpp     (MockCheckedExpectedCall: flags, counters, call-order window, object, callWasMade, reset)
      src/CppUTestExt/MockExpectedCallsList.cpp (pruning primitives)
      src/CppUTestExt/MockFailure.cpp          (which failure, which expectations it lists)
-   Core fragment: expectOneCall/expectNCalls with typed input parameters, andReturnValue, ignoreOtherParameters, actualCall +
-   withParameter + returnValue, checkExpectations, clear, strictOrder, ignoreOtherCalls.  Not yet: onObject, output parameters,
-   custom comparators, scopes, enable/disable, tracing.
+   Fragment: expectOneCall/expectNCalls with typed input parameters, withOutputParameterReturning, onObject, andReturnValue,
+   ignoreOtherParameters; actualCall + withParameter / withOutputParameter / onObject in any order + returnValue;
+   checkExpectations, expectedCallsLeft, clear, strictOrder, ignoreOtherCalls, enable, disable -- each on the global mock() or on a
+   named scope mock("s<n>").  Not modelled: custom comparators/copiers (..OfType), tracing, nested scopes, setData.
 
    Representation.  expectations_ is a list that is only ever appended to.  potentiallyMatchingExpectations_ of the call in
    progress is built by one in-order pass over expectations_ and afterwards only shrinks through pruning passes, so it is always
@@ -22,7 +25,7 @@ From Coq Require Import ZArith NArith Bool List.
 From CppUVerif Require Import lib.CInt lib.Str.
 Import ListNotations.
 
-Definition name := N.   (* function / parameter names: the harness uses the strings "f<hex>" / "p<hex>" *)
+Definition name := N.   (* function / parameter / scope names: the harness uses the strings "f<hex>" / "p<hex>" / "o<hex>" / "s<hex>" *)
 
 (* typed parameter / return values of the core fragment *)
 Inductive pv := PBool (b : bool) | PInt (t : ity) (z : Z) | PStr (s : list N) | PPtr (a : Z).
@@ -54,56 +57,96 @@ Definition pv_eqb (a b : pv) : bool :=
   | _, _ => veq a b
   end.
 
+(* what an actual call passes after its name, in the order of the fluent calls *)
+Inductive item :=
+| IIn (n : name) (v : pv)            (* withParameter(n, v) *)
+| IOut (n : name) (buf : list N)     (* withOutputParameter(n, buffer): buf = what the caller's buffer holds before the call *)
+| IObj (a : Z).                      (* onObject(a) *)
+
 (* ---------------------------------------------------------------- expectations *)
 Record param := { p_name : name; p_val : pv; p_flag : bool (* matchesActualCall_ *) }.
+(* withOutputParameterReturning(name, bytes, size): type "const void*", copied with memcpy *)
+Record oparam := { q_name : name; q_bytes : list N; q_flag : bool (* matchesActualCall_ *) }.
 
 Record expn := {
   e_name : name;
   e_params : list param;      (* inputParameters_, in the order they were added *)
+  e_outs : list oparam;       (* outputParameters_, in the order they were added *)
   e_ign : bool;               (* ignoreOtherParameters_ *)
   e_fin : bool;               (* isActualCallMatchFinalized_ *)
   e_lo : N; e_hi : N;         (* initial/finalExpectedCallOrder_; e_lo = 0 is NO_EXPECTED_CALL_ORDER *)
   e_ooo : bool;               (* outOfOrder_ *)
   e_ret : option pv;          (* returnValue_; None = its name is "" (no return value set) *)
+  e_obj : option Z;           (* isSpecificObjectExpected_ / objectPtr_ *)
+  e_pobj : bool;              (* wasPassedToObject_ *)
   e_act : N; e_exp : N;       (* actualCalls_, expectedCalls_ *)
   e_pot : bool;               (* member of the current call's potentiallyMatchingExpectations_ *)
   e_cur : bool                (* is the current call's matchingExpectation_ *)
 }.
 
 Definition set_params (e : expn) (ps : list param) : expn :=
-  {| e_name := e_name e; e_params := ps; e_ign := e_ign e; e_fin := e_fin e; e_lo := e_lo e; e_hi := e_hi e; e_ooo := e_ooo e;
-     e_ret := e_ret e; e_act := e_act e; e_exp := e_exp e; e_pot := e_pot e; e_cur := e_cur e |}.
+  {| e_name := e_name e; e_params := ps; e_outs := e_outs e; e_ign := e_ign e; e_fin := e_fin e; e_lo := e_lo e; e_hi := e_hi e;
+     e_ooo := e_ooo e; e_ret := e_ret e; e_obj := e_obj e; e_pobj := e_pobj e; e_act := e_act e; e_exp := e_exp e; e_pot := e_pot e;
+     e_cur := e_cur e |}.
+Definition set_outs (e : expn) (qs : list oparam) : expn :=
+  {| e_name := e_name e; e_params := e_params e; e_outs := qs; e_ign := e_ign e; e_fin := e_fin e; e_lo := e_lo e; e_hi := e_hi e;
+     e_ooo := e_ooo e; e_ret := e_ret e; e_obj := e_obj e; e_pobj := e_pobj e; e_act := e_act e; e_exp := e_exp e; e_pot := e_pot e;
+     e_cur := e_cur e |}.
 Definition set_fin (e : expn) (b : bool) : expn :=
-  {| e_name := e_name e; e_params := e_params e; e_ign := e_ign e; e_fin := b; e_lo := e_lo e; e_hi := e_hi e; e_ooo := e_ooo e;
-     e_ret := e_ret e; e_act := e_act e; e_exp := e_exp e; e_pot := e_pot e; e_cur := e_cur e |}.
+  {| e_name := e_name e; e_params := e_params e; e_outs := e_outs e; e_ign := e_ign e; e_fin := b; e_lo := e_lo e; e_hi := e_hi e;
+     e_ooo := e_ooo e; e_ret := e_ret e; e_obj := e_obj e; e_pobj := e_pobj e; e_act := e_act e; e_exp := e_exp e; e_pot := e_pot e;
+     e_cur := e_cur e |}.
+Definition set_pobj (e : expn) (b : bool) : expn :=
+  {| e_name := e_name e; e_params := e_params e; e_outs := e_outs e; e_ign := e_ign e; e_fin := e_fin e; e_lo := e_lo e; e_hi := e_hi e;
+     e_ooo := e_ooo e; e_ret := e_ret e; e_obj := e_obj e; e_pobj := b; e_act := e_act e; e_exp := e_exp e; e_pot := e_pot e;
+     e_cur := e_cur e |}.
 Definition set_pot (e : expn) (b : bool) : expn :=
-  {| e_name := e_name e; e_params := e_params e; e_ign := e_ign e; e_fin := e_fin e; e_lo := e_lo e; e_hi := e_hi e; e_ooo := e_ooo e;
-     e_ret := e_ret e; e_act := e_act e; e_exp := e_exp e; e_pot := b; e_cur := e_cur e |}.
+  {| e_name := e_name e; e_params := e_params e; e_outs := e_outs e; e_ign := e_ign e; e_fin := e_fin e; e_lo := e_lo e; e_hi := e_hi e;
+     e_ooo := e_ooo e; e_ret := e_ret e; e_obj := e_obj e; e_pobj := e_pobj e; e_act := e_act e; e_exp := e_exp e; e_pot := b;
+     e_cur := e_cur e |}.
 Definition set_cur (e : expn) (b : bool) : expn :=
-  {| e_name := e_name e; e_params := e_params e; e_ign := e_ign e; e_fin := e_fin e; e_lo := e_lo e; e_hi := e_hi e; e_ooo := e_ooo e;
-     e_ret := e_ret e; e_act := e_act e; e_exp := e_exp e; e_pot := e_pot e; e_cur := b |}.
+  {| e_name := e_name e; e_params := e_params e; e_outs := e_outs e; e_ign := e_ign e; e_fin := e_fin e; e_lo := e_lo e; e_hi := e_hi e;
+     e_ooo := e_ooo e; e_ret := e_ret e; e_obj := e_obj e; e_pobj := e_pobj e; e_act := e_act e; e_exp := e_exp e; e_pot := e_pot e;
+     e_cur := b |}.
 Definition set_count (e : expn) (act : N) (ooo : bool) : expn :=
-  {| e_name := e_name e; e_params := e_params e; e_ign := e_ign e; e_fin := e_fin e; e_lo := e_lo e; e_hi := e_hi e; e_ooo := ooo;
-     e_ret := e_ret e; e_act := act; e_exp := e_exp e; e_pot := e_pot e; e_cur := e_cur e |}.
+  {| e_name := e_name e; e_params := e_params e; e_outs := e_outs e; e_ign := e_ign e; e_fin := e_fin e; e_lo := e_lo e; e_hi := e_hi e;
+     e_ooo := ooo; e_ret := e_ret e; e_obj := e_obj e; e_pobj := e_pobj e; e_act := act; e_exp := e_exp e; e_pot := e_pot e;
+     e_cur := e_cur e |}.
 
 Definition set_flag (p : param) (b : bool) : param := {| p_name := p_name p; p_val := p_val p; p_flag := b |}.
+Definition set_qflag (q : oparam) (b : bool) : oparam := {| q_name := q_name q; q_bytes := q_bytes q; q_flag := b |}.
 
 (* MockCheckedExpectedCall *)
 Definition relates (f : name) (e : expn) : bool := (e_name e =? f)%N.
 Definition is_fulfilled (e : expn) : bool := (e_act e =? e_exp e)%N.
 Definition can_match (e : expn) : bool := (e_act e <? e_exp e)%N.
-Definition params_matching (e : expn) : bool := forallb p_flag (e_params e).          (* areParametersMatchingActualCall *)
-Definition is_matching (e : expn) : bool := params_matching e.                        (* && wasPassedToObject_ (always true here) *)
+Definition params_matching (e : expn) : bool :=                                       (* areParametersMatchingActualCall *)
+  forallb p_flag (e_params e) && forallb q_flag (e_outs e).
+Definition is_matching (e : expn) : bool := params_matching e && e_pobj e.            (* isMatchingActualCall *)
 Definition is_matching_fin (e : expn) : bool := is_matching e && (negb (e_ign e) || e_fin e).
+Definition specific (e : expn) : bool := match e_obj e with Some _ => true | None => false end.   (* isSpecificObjectExpected_ *)
 Definition reset_e (e : expn) : expn :=                                               (* resetActualCallMatchingState *)
-  set_fin (set_params e (map (fun p => set_flag p false) (e_params e))) false.
+  set_fin (set_pobj (set_outs (set_params e (map (fun p => set_flag p false) (e_params e)))
+                              (map (fun q => set_qflag q false) (e_outs e)))
+                    (negb (specific e))) false.
 Definition find_param (n : name) (ps : list param) : option param := find (fun p => (p_name p =? n)%N) ps.   (* getValueByName *)
+Definition find_oparam (n : name) (qs : list oparam) : option oparam := find (fun q => (q_name q =? n)%N) qs.
 Definition has_input_name (n : name) (e : expn) : bool :=
   match find_param n (e_params e) with Some _ => true | None => false end.
 Definition has_input (n : name) (v : pv) (e : expn) : bool :=                         (* hasInputParameter *)
   match find_param n (e_params e) with Some q => veq (p_val q) v | None => e_ign e end.
+Definition has_output_name (n : name) (e : expn) : bool :=
+  match find_oparam n (e_outs e) with Some _ => true | None => false end.
+(* hasOutputParameter: compatibleForCopying of "const void*" (expected) with "void*" (actual) is always true *)
+Definition has_output (n : name) (e : expn) : bool :=
+  match find_oparam n (e_outs e) with Some _ => true | None => e_ign e end.
+Definition relates_obj (a : Z) (e : expn) : bool :=                                   (* relatesToObject *)
+  match e_obj e with Some b => (b =? a)%Z | None => true end.
 Definition mark (n : name) (e : expn) : expn :=                                       (* inputParameterWasPassed *)
   set_params e (map (fun p => if (p_name p =? n)%N then set_flag p true else p) (e_params e)).
+Definition mark_out (n : name) (e : expn) : expn :=                                   (* outputParameterWasPassed *)
+  set_outs e (map (fun q => if (q_name q =? n)%N then set_qflag q true else q) (e_outs e)).
+Definition pass_obj (e : expn) : expn := set_pobj e true.                             (* wasPassedToObject *)
 Definition call_was_made (order : N) (e : expn) : expn :=                             (* callWasMade *)
   let ooo := if negb (e_lo e =? 0)%N && ((order <? e_lo e)%N || (e_hi e <? order)%N) then true else e_ooo e in
   reset_e (set_count e (e_act e + 1)%N ooo).
@@ -126,6 +169,8 @@ Fixpoint take_first (pred : expn -> bool) (g : expn -> expn) (es : list expn) : 
   | e :: r => if e_pot e && pred e then Some (g (set_cur (drop e) true) :: r)
               else match take_first pred g r with Some r' => Some (e :: r') | None => None end
   end.
+(* the member removeFirst.../getFirst... finds *)
+Definition first_pot (pred : expn -> bool) (es : list expn) : option expn := find (fun e => e_pot e && pred e) es.
 
 (* ---------------------------------------------------------------- failures *)
 Inductive fkind :=
@@ -137,7 +182,10 @@ Inductive fkind :=
 | FObjectMissing (f : name)                  (* "Expected call on object for function ... did not happen" *)
 | FNotFulfilled                              (* "Expected call WAS NOT fulfilled" *)
 | FOutOfOrder                                (* "Out of order calls" *)
-| FCannotHappen.                             (* the FAIL("... This cannot happen.") of checkExpectations *)
+| FCannotHappen                              (* the FAIL("... This cannot happen.") of checkExpectations *)
+| FOutName (f p : name)                      (* "Unexpected output parameter name to function "f": p" *)
+| FOutType (f p : name)                      (* "Unexpected parameter type "void*" to output parameter "p" to function "f"" *)
+| FObjectUnexpected (f : name).              (* "Function called on an unexpected object: f" *)
 (* the expectations the message lists: (expected, called) of the not fulfilled ones, then of the fulfilled ones *)
 Record failure := { f_kind : fkind; f_unf : list (N * N); f_ful : list (N * N) }.
 
@@ -149,19 +197,37 @@ Definition history_related (f : name) (es : list expn) (k : fkind) : failure := 
 
 (* ---------------------------------------------------------------- the actual call in progress *)
 Inductive cstate := InProgress | Succeeded | Failed.
-Record acall := { c_name : name; c_order : N; c_state : cstate; c_checked : bool }.
+Record acall := { c_name : name; c_order : N; c_state : cstate; c_checked : bool;
+                  c_outs : list (name * list N)   (* outputParameterExpectations_: name and the caller's buffer (its content) *) }.
 Definition set_state (c : acall) (s : cstate) : acall :=
-  {| c_name := c_name c; c_order := c_order c; c_state := s; c_checked := c_checked c |}.
+  {| c_name := c_name c; c_order := c_order c; c_state := s; c_checked := c_checked c; c_outs := c_outs c |}.
 Definition set_checked (c : acall) : acall :=
-  {| c_name := c_name c; c_order := c_order c; c_state := c_state c; c_checked := true |}.
+  {| c_name := c_name c; c_order := c_order c; c_state := c_state c; c_checked := true; c_outs := c_outs c |}.
+Definition set_couts (c : acall) (l : list (name * list N)) : acall :=
+  {| c_name := c_name c; c_order := c_order c; c_state := c_state c; c_checked := c_checked c; c_outs := l |}.
 
 Definition res (A : Type) := (A + failure)%type.
 
-(* completeCallWhenMatchIsFound (output parameters are not in this fragment) *)
+(* PlatformSpecificMemCpy(buffer, data, size) *)
+Definition overwrite (data buf : list N) : list N := data ++ skipn (length data) buf.
+(* copyOutputParameters(expectedCall): every output parameter the actual call has passed so far is filled from the expectation's
+   output parameter of that name (getOutputParameter: the first of that name; none: name "" -> nothing is copied) *)
+Definition copy_outputs (e : expn) (outs : list (name * list N)) : list (name * list N) :=
+  map (fun o => match find_oparam (fst o) (e_outs e) with Some q => (fst o, overwrite (q_bytes q) (snd o)) | None => o end) outs.
+
+(* completeCallWhenMatchIsFound *)
 Definition complete (es : list expn) (c : acall) : list expn * acall :=
-  match take_first is_matching_fin (fun e => e) es with
-  | Some es' => (es', set_state c Succeeded)
-  | None => (es, c)
+  match first_pot is_matching_fin es with
+  | Some e =>
+      match take_first is_matching_fin (fun e => e) es with
+      | Some es' => (es', set_state (set_couts c (copy_outputs e (c_outs c))) Succeeded)
+      | None => (es, c)     (* unreachable: first_pot found one *)
+      end
+  | None =>
+      match first_pot is_matching es with               (* matchingExpectationWithIgnoredParameters *)
+      | Some e => (es, set_couts c (copy_outputs e (c_outs c)))
+      | None => (es, c)
+      end
   end.
 
 Definition fulfilled_for (f : name) (es : list expn) : N :=                            (* amountOfActualCallsFulfilledFor *)
@@ -190,6 +256,27 @@ Definition check_input (n : name) (v : pv) (es : list expn) (c : acall) : res (l
            (if existsb (fun e => relates (c_name c) e && has_input_name n e) es then FParamValue (c_name c) n else FParamName (c_name c) n))
   else inl (complete (for_pot (mark n) es) c).
 
+(* MockCheckedActualCall::withOutputParameter = addOutputParameter + checkOutputParameter *)
+Definition check_output (n : name) (buf : list N) (es : list expn) (c : acall) : res (list expn * acall) :=
+  let c := set_couts c (c_outs c ++ [(n, buf)]) in
+  let c := set_state c InProgress in
+  let es := discard es in
+  let es := keep_if (has_output n) es in
+  if pot_empty es then
+    inr (history_related (c_name c) es
+           (if existsb (fun e => relates (c_name c) e && has_output_name n e) es then FOutType (c_name c) n else FOutName (c_name c) n))
+  else inl (complete (for_pot (mark_out n) es) c).
+
+(* MockCheckedActualCall::onObject: the current match is NOT discarded ("the passed object is ignored if not specifically set in
+   the expectation") and the state is not touched *)
+Definition on_object (a : Z) (es : list expn) (c : acall) : res (list expn * acall) :=
+  let es := keep_if (relates_obj a) es in
+  let nocur := negb (existsb e_cur es) in
+  if nocur && pot_empty es then inr (history_related (c_name c) es (FObjectUnexpected (c_name c)))
+  else
+    let es := for_pot pass_obj es in
+    if nocur then inl (complete es c) else inl (es, c).
+
 (* MockCheckedActualCall::checkExpectations.  matchingExpectation_ (e_cur) stays set until the call object is deleted. *)
 Definition check_call (es : list expn) (c : acall) : res (list expn * acall) :=
   if c_checked c then inl (es, c) else
@@ -208,17 +295,28 @@ Definition check_call (es : list expn) (c : acall) : res (list expn * acall) :=
            end
   end.
 
-(* ---------------------------------------------------------------- MockSupport *)
+(* ---------------------------------------------------------------- MockSupport (one scope) *)
 Record mock := {
   m_exps : list expn;
   m_aorder : N; m_eorder : N;          (* actualCallOrder_, expectedCallOrder_ *)
   m_strict : bool; m_ignore : bool;    (* strictOrdering_, ignoreOtherCalls_ *)
+  m_enabled : bool;                    (* enabled_ *)
   m_last : option acall                (* lastActualFunctionCall_ *)
 }.
 Definition mock0 : mock :=
-  {| m_exps := []; m_aorder := 0; m_eorder := 0; m_strict := false; m_ignore := false; m_last := None |}.
+  {| m_exps := []; m_aorder := 0; m_eorder := 0; m_strict := false; m_ignore := false; m_enabled := true; m_last := None |}.
 Definition with_exps (m : mock) (es : list expn) (last : option acall) : mock :=
-  {| m_exps := es; m_aorder := m_aorder m; m_eorder := m_eorder m; m_strict := m_strict m; m_ignore := m_ignore m; m_last := last |}.
+  {| m_exps := es; m_aorder := m_aorder m; m_eorder := m_eorder m; m_strict := m_strict m; m_ignore := m_ignore m;
+     m_enabled := m_enabled m; m_last := last |}.
+Definition set_strict (m : mock) : mock :=
+  {| m_exps := m_exps m; m_aorder := m_aorder m; m_eorder := m_eorder m; m_strict := true; m_ignore := m_ignore m;
+     m_enabled := m_enabled m; m_last := m_last m |}.
+Definition set_ignore (m : mock) : mock :=
+  {| m_exps := m_exps m; m_aorder := m_aorder m; m_eorder := m_eorder m; m_strict := m_strict m; m_ignore := true;
+     m_enabled := m_enabled m; m_last := m_last m |}.
+Definition set_enabled (m : mock) (b : bool) : mock :=
+  {| m_exps := m_exps m; m_aorder := m_aorder m; m_eorder := m_eorder m; m_strict := m_strict m; m_ignore := m_ignore m;
+     m_enabled := b; m_last := m_last m |}.
 
 (* MockCheckedActualCall::returnValue after checkExpectations: the matching expectation's returnValue_ *)
 Definition cur_ret (es : list expn) : option pv :=
@@ -234,133 +332,485 @@ Definition finish_last (m : mock) : res mock :=
               end
   end.
 
-(* MockSupport::expectNCalls(n, f).withParameter(..)...andReturnValue(..)[.ignoreOtherParameters()] *)
-Definition expect (m : mock) (n : N) (f : name) (ps : list (name * pv)) (ret : option pv) (ign : bool) : mock :=
+(* object and outputs of an expectation as the scenario gives them *)
+Definition mk_exp (n : N) (f : name) (ps : list (name * pv)) (outs : list (name * list N)) (obj : option Z) (ret : option pv)
+                  (ign : bool) (lo hi : N) : expn :=
+  {| e_name := f; e_params := map (fun q => {| p_name := fst q; p_val := snd q; p_flag := false |}) ps;
+     e_outs := map (fun q => {| q_name := fst q; q_bytes := snd q; q_flag := false |}) outs;
+     e_ign := ign; e_fin := false; e_lo := lo; e_hi := hi; e_ooo := false; e_ret := ret; e_obj := obj;
+     e_pobj := match obj with Some _ => false | None => true end;
+     e_act := 0; e_exp := n; e_pot := false; e_cur := false |}.
+
+(* MockSupport::expectNCalls(n, f).withParameter(..)...withOutputParameterReturning(..)...[onObject(..)].andReturnValue(..)
+   [.ignoreOtherParameters()]; disabled: MockIgnoredExpectedCall, nothing is recorded *)
+Definition expect (m : mock) (n : N) (f : name) (ps : list (name * pv)) (outs : list (name * list N)) (obj : option Z)
+                  (ret : option pv) (ign : bool) : mock :=
+  if negb (m_enabled m) then m else
   let lo := if m_strict m then (m_eorder m + 1)%N else 0%N in
   let hi := if m_strict m then (m_eorder m + n)%N else 0%N in
-  let e := {| e_name := f; e_params := map (fun q => {| p_name := fst q; p_val := snd q; p_flag := false |}) ps; e_ign := ign;
-              e_fin := false; e_lo := lo; e_hi := hi; e_ooo := false; e_ret := ret; e_act := 0; e_exp := n;
-              e_pot := false; e_cur := false |} in
-  {| m_exps := m_exps m ++ [e]; m_aorder := m_aorder m; m_eorder := if m_strict m then (m_eorder m + n)%N else m_eorder m;
-     m_strict := m_strict m; m_ignore := m_ignore m; m_last := m_last m |}.
+  {| m_exps := m_exps m ++ [mk_exp n f ps outs obj ret ign lo hi]; m_aorder := m_aorder m;
+     m_eorder := if m_strict m then (m_eorder m + n)%N else m_eorder m;
+     m_strict := m_strict m; m_ignore := m_ignore m; m_enabled := m_enabled m; m_last := m_last m |}.
 
 (* MockCheckedActualCall constructor: addPotentiallyMatchingExpectations (+ since the repair: reset of the candidates) *)
 Definition create (fx : bool) (es : list expn) : list expn :=
   map (fun e => let e := set_cur e false in
                 if can_match e then set_pot (if fx then reset_e e else e) true else set_pot e false) es.
 
-Fixpoint with_params (ps : list (name * pv)) (es : list expn) (c : acall) : res (list expn * acall) :=
-  match ps with
+Definition with_item (it : item) (es : list expn) (c : acall) : res (list expn * acall) :=
+  match it with
+  | IIn n v => check_input n v es c
+  | IOut n buf => check_output n buf es c
+  | IObj a => on_object a es c
+  end.
+Fixpoint with_items (its : list item) (es : list expn) (c : acall) : res (list expn * acall) :=
+  match its with
   | [] => inl (es, c)
-  | (n, v) :: r => match check_input n v es c with
-                   | inr f => inr f
-                   | inl (es', c') => with_params r es' c'
-                   end
+  | it :: r => match with_item it es c with
+               | inr f => inr f
+               | inl (es', c') => with_items r es' c'
+               end
   end.
 
-(* MockSupport::actualCall(f).withParameter(..)... [; hasReturnValue() ? returnValue() : none]
-   result: the new state and, when the return value is asked for, what was returned *)
-Definition actual_call (fx : bool) (m : mock) (f : name) (ps : list (name * pv)) (want : bool) : res (mock * option (option pv)) :=
+(* what one operation hands back to the test: the value returned (when asked for), the caller's output buffers after an actual
+   call (in the order they were passed), the answer of expectedCallsLeft *)
+Record effect := { r_ret : option (option pv); r_outs : list (list N); r_left : option bool }.
+Definition no_effect : effect := {| r_ret := None; r_outs := []; r_left := None |}.
+Definition bufs_of (its : list item) : list (list N) :=
+  flat_map (fun it => match it with IOut _ buf => [buf] | _ => [] end) its.
+(* MockIgnoredActualCall: nothing is written, hasReturnValue() is false *)
+Definition ignored_effect (its : list item) (want : bool) : effect :=
+  {| r_ret := if want then Some None else None; r_outs := bufs_of its; r_left := None |}.
+Definition last_outs (m : mock) : list (list N) :=
+  match m_last m with Some c => map snd (c_outs c) | None => [] end.
+
+(* MockSupport::actualCall(f).<items>... [; hasReturnValue() ? returnValue() : none] *)
+Definition actual_call (fx : bool) (m : mock) (f : name) (its : list item) (want : bool) : res (mock * effect) :=
   match finish_last m with
   | inr fl => inr fl
   | inl m =>
       let m := with_exps m (m_exps m) None in                            (* delete lastActualFunctionCall_ *)
-      if m_ignore m && negb (existsb (relates f) (m_exps m))             (* callIsIgnored -> MockIgnoredActualCall *)
-      then inl (m, if want then Some None else None)
+      if negb (m_enabled m) then inl (m, ignored_effect its want)        (* !enabled_ -> MockIgnoredActualCall *)
+      else if m_ignore m && negb (existsb (relates f) (m_exps m))        (* callIsIgnored -> MockIgnoredActualCall *)
+      then inl (m, ignored_effect its want)
       else
         let order := (m_aorder m + 1)%N in
-        let c := {| c_name := f; c_order := order; c_state := Succeeded; c_checked := false |} in
+        let c := {| c_name := f; c_order := order; c_state := Succeeded; c_checked := false; c_outs := [] |} in
         let m := {| m_exps := m_exps m; m_aorder := order; m_eorder := m_eorder m; m_strict := m_strict m; m_ignore := m_ignore m;
-                    m_last := None |} in
+                    m_enabled := m_enabled m; m_last := None |} in
         match with_name (create fx (m_exps m)) c with
         | inr fl => inr fl
         | inl (es, c) =>
-            match with_params ps es c with
+            match with_items its es c with
             | inr fl => inr fl
             | inl (es, c) =>
                 let m := with_exps m es (Some c) in
                 if want then
                   match finish_last m with                              (* returnValue() -> checkExpectations() *)
                   | inr fl => inr fl
-                  | inl m => inl (m, Some (cur_ret (m_exps m)))
+                  | inl m => inl (m, {| r_ret := Some (cur_ret (m_exps m)); r_outs := last_outs m; r_left := None |})
                   end
-                else inl (m, None)
+                else inl (m, {| r_ret := None; r_outs := last_outs m; r_left := None |})
             end
         end
   end.
 
-(* MockSupport::checkExpectations *)
+Definition last_ok (m : mock) : bool :=                                   (* wasLastActualCallFulfilled, own part *)
+  match m_last m with None => true | Some c => match c_state c with Succeeded => true | _ => false end end.
+Definition unfulfilled (es : list expn) : bool := existsb (fun e => negb (is_fulfilled e)) es.   (* hasUnfulfilledExpectations *)
+
+(* MockSupport::checkExpectations of a mock without scopes below it *)
 Definition check_expectations (m : mock) : res mock :=
   match finish_last m with
   | inr fl => inr fl
   | inl m =>
-      let last_ok := match m_last m with None => true | Some c => match c_state c with Succeeded => true | _ => false end end in
-      if last_ok && existsb (fun e => negb (is_fulfilled e)) (m_exps m) then inr (history (m_exps m) FNotFulfilled)
+      if last_ok m && unfulfilled (m_exps m) then inr (history (m_exps m) FNotFulfilled)
       else if existsb e_ooo (m_exps m) then inr (history (filter e_ooo (m_exps m)) FOutOfOrder)
       else inl m
   end.
-
-(* ---------------------------------------------------------------- scenarios *)
-Inductive op :=
-| OExpect (n : N) (f : name) (ps : list (name * pv)) (ret : option pv) (ign : bool)
-| OCall (f : name) (ps : list (name * pv)) (want : bool)
-| OCheck | OClear | OStrict | OIgnoreOtherCalls.
-
-Definition step (fx : bool) (m : mock) (o : op) : res (mock * option (option pv)) :=
-  match o with
-  | OExpect n f ps ret ign => inl (expect m n f ps ret ign, None)
-  | OCall f ps want => actual_call fx m f ps want
-  | OCheck => match check_expectations m with inr fl => inr fl | inl m => inl (m, None) end
-  | OClear => inl (mock0, None)
-  | OStrict => inl ({| m_exps := m_exps m; m_aorder := m_aorder m; m_eorder := m_eorder m; m_strict := true; m_ignore := m_ignore m;
-                       m_last := m_last m |}, None)
-  | OIgnoreOtherCalls => inl ({| m_exps := m_exps m; m_aorder := m_aorder m; m_eorder := m_eorder m; m_strict := m_strict m;
-                                 m_ignore := true; m_last := m_last m |}, None)
+(* MockSupport::expectedCallsLeft of a mock without scopes below it *)
+Definition calls_left (m : mock) : res (mock * bool) :=
+  match finish_last m with
+  | inr fl => inr fl
+  | inl m => inl (m, unfulfilled (m_exps m))
   end.
 
-(* observation: the failing operation (index, failure) if any, and the values returned to the calls that asked *)
-Record obs := { o_fail : option (N * failure); o_rets : list (option pv) }.
+(* ---------------------------------------------------------------- scenarios on one mock *)
+Inductive op :=
+| OExpect (n : N) (f : name) (ps : list (name * pv)) (outs : list (name * list N)) (obj : option Z) (ret : option pv) (ign : bool)
+| OCall (f : name) (its : list item) (want : bool)
+| OCheck | OClear | OStrict | OIgnoreOtherCalls
+| OEnable | ODisable | OLeft.
 
-Fixpoint run_from (fx : bool) (m : mock) (i : N) (ops : list op) (rets : list (option pv)) : obs :=
+Definition step (fx : bool) (m : mock) (o : op) : res (mock * effect) :=
+  match o with
+  | OExpect n f ps outs obj ret ign => inl (expect m n f ps outs obj ret ign, no_effect)
+  | OCall f its want => actual_call fx m f its want
+  | OCheck => match check_expectations m with inr fl => inr fl | inl m => inl (m, no_effect) end
+  | OClear => inl (mock0, no_effect)
+  | OStrict => inl (set_strict m, no_effect)
+  | OIgnoreOtherCalls => inl (set_ignore m, no_effect)
+  | OEnable => inl (set_enabled m true, no_effect)
+  | ODisable => inl (set_enabled m false, no_effect)
+  | OLeft => match calls_left m with inr fl => inr fl | inl (m, b) => inl (m, {| r_ret := None; r_outs := []; r_left := Some b |}) end
+  end.
+
+(* observation: the failing operation (index, failure) if any, the values returned to the calls that asked, the output buffers
+   after every completed actual call, the answers of expectedCallsLeft *)
+Record obs := { o_fail : option (N * failure); o_rets : list (option pv); o_outs : list (list N); o_left : list bool }.
+
+Record acc := { a_rets : list (option pv); a_outs : list (list N); a_left : list bool }.   (* reversed *)
+Definition acc0 : acc := {| a_rets := []; a_outs := []; a_left := [] |}.
+Definition add_effect (a : acc) (r : effect) : acc :=
+  {| a_rets := match r_ret r with Some x => x :: a_rets a | None => a_rets a end;
+     a_outs := rev (r_outs r) ++ a_outs a;
+     a_left := match r_left r with Some b => b :: a_left a | None => a_left a end |}.
+Definition mk_obs (fl : option (N * failure)) (a : acc) : obs :=
+  {| o_fail := fl; o_rets := rev (a_rets a); o_outs := rev (a_outs a); o_left := rev (a_left a) |}.
+
+Fixpoint run_from (fx : bool) (m : mock) (i : N) (ops : list op) (a : acc) : obs :=
   match ops with
-  | [] => {| o_fail := None; o_rets := rev rets |}
+  | [] => mk_obs None a
   | o :: r => match step fx m o with
-              | inr fl => {| o_fail := Some (i, fl); o_rets := rev rets |}
-              | inl (m', rv) => run_from fx m' (i + 1)%N r (match rv with Some x => x :: rets | None => rets end)
+              | inr fl => mk_obs (Some (i, fl)) a
+              | inl (m', rv) => run_from fx m' (i + 1)%N r (add_effect a rv)
               end
   end.
 
-Definition run_gen (fx : bool) (ops : list op) : obs := run_from fx mock0 0%N ops [].
-Definition run : list op -> obs := run_gen true.        (* the code as it is now *)
+Definition run_gen (fx : bool) (ops : list op) : obs := run_from fx mock0 0%N ops acc0.
+Definition run : list op -> obs := run_gen true.        (* the code as it is now, global mock only *)
 Definition run_old : list op -> obs := run_gen false.   (* before the repair *)
 
-(* ================================================================ the property, model-free (no flags, no candidate lists)
-   Judged scenarios ("canonical"): [strictOrder] [ignoreOtherCalls] expectations* actual-calls* checkExpectations, no parameter name
-   twice in one actual call, no ignoreOtherParameters.  In this fragment a call matches an expectation iff same function and the
-   same set of (parameter name, value) -- every expectation set is unambiguous in the sense of the property (a call determines
-   the class of expectations it can consume), so no further hypothesis is needed; with ignoreOtherParameters that fails and such
-   scenarios are not judged (checked for model = implementation only). *)
-Definition sexp : Type := N * name * list (name * pv) * option pv.      (* count, function, parameters, return value *)
-Definition scall : Type := name * list (name * pv) * bool.              (* function, parameters, return value asked *)
-Definition sx_n (e : sexp) : N := fst (fst (fst e)).
-Definition sx_f (e : sexp) : name := snd (fst (fst e)).
-Definition sx_ps (e : sexp) : list (name * pv) := snd (fst e).
-Definition sx_ret (e : sexp) : option pv := snd e.
-Definition sc_f (c : scall) : name := fst (fst c).
-Definition sc_ps (c : scall) : list (name * pv) := snd (fst c).
-Definition sc_want (c : scall) : bool := snd c.
+(* ---------------------------------------------------------------- the global mock and its named scopes
+   mock("s") = global_mock.getMockSupportScope("s"): found in data_ or cloned from the global mock and appended to data_. *)
+Record world := { w_g : mock; w_kids : list (N * mock) }.     (* data_ in creation order *)
+Definition world0 : world := {| w_g := mock0; w_kids := [] |}.
+(* MockSupport::clone: a new MockSupport that inherits ignoreOtherCalls_, enabled_ and strictOrdering_ *)
+Definition clone (g : mock) : mock :=
+  {| m_exps := []; m_aorder := 0; m_eorder := 0; m_strict := m_strict g; m_ignore := m_ignore g; m_enabled := m_enabled g;
+     m_last := None |}.
+Fixpoint lookup_kid (s : N) (kids : list (N * mock)) : option mock :=
+  match kids with
+  | [] => None
+  | (t, m) :: r => if (t =? s)%N then Some m else lookup_kid s r
+  end.
+(* the scope as mock("s") hands it out *)
+Definition kid (s : N) (w : world) : mock :=
+  match lookup_kid s (w_kids w) with Some m => m | None => clone (w_g w) end.
+Fixpoint put_kid (s : N) (m : mock) (kids : list (N * mock)) : list (N * mock) :=
+  match kids with
+  | [] => [(s, m)]
+  | (t, m') :: r => if (t =? s)%N then (t, m) :: r else (t, m') :: put_kid s m r
+  end.
+Definition all_mocks (w : world) : list mock := w_g w :: map snd (w_kids w).
+Definition map_kids (f : mock -> mock) (w : world) : world :=
+  {| w_g := f (w_g w); w_kids := map (fun k => (fst k, f (snd k))) (w_kids w) |}.
 
+(* checkExpectationsOfLastActualCall of the global mock: its own last call, then the scopes' in data_ order *)
+Fixpoint finish_kids (kids : list (N * mock)) : res (list (N * mock)) :=
+  match kids with
+  | [] => inl []
+  | (t, m) :: r => match finish_last m with
+                   | inr fl => inr fl
+                   | inl m' => match finish_kids r with inr fl => inr fl | inl r' => inl ((t, m') :: r') end
+                   end
+  end.
+Definition finish_all (w : world) : res world :=
+  match finish_last (w_g w) with
+  | inr fl => inr fl
+  | inl g => match finish_kids (w_kids w) with inr fl => inr fl | inl ks => inl {| w_g := g; w_kids := ks |} end
+  end.
+(* the list failTestWithExpectedCallsNotFulfilled / ...OutOfOrderCalls build: own expectations, then every scope's *)
+Definition all_exps (w : world) : list expn := m_exps (w_g w) ++ flat_map (fun k => m_exps (snd k)) (w_kids w).
+(* expectedCallsLeft: own hasUnfulfilledExpectations plus every scope's expectedCallsLeft *)
+Definition left_all (w : world) : bool :=
+  unfulfilled (m_exps (w_g w)) || existsb (fun k => unfulfilled (m_exps (snd k))) (w_kids w).
+(* wasLastActualCallFulfilled *)
+Definition last_ok_all (w : world) : bool := last_ok (w_g w) && forallb (fun k => last_ok (snd k)) (w_kids w).
+(* hasCallsOutOfOrder *)
+Definition ooo_all (w : world) : bool := existsb e_ooo (m_exps (w_g w)) || existsb (fun k => existsb e_ooo (m_exps (snd k))) (w_kids w).
+(* mock().checkExpectations() *)
+Definition check_world (w : world) : res world :=
+  match finish_all w with
+  | inr fl => inr fl
+  | inl w =>
+      if last_ok_all w && left_all w then inr (history (all_exps w) FNotFulfilled)
+      else if ooo_all w then inr (history (filter e_ooo (all_exps w)) FOutOfOrder)
+      else inl w
+  end.
+
+(* one operation on mock() (s = 0) or on mock("s<s>") *)
+Definition stepw (fx : bool) (w : world) (so : N * op) : res (world * effect) :=
+  let (s, o) := so in
+  if (s =? 0)%N then
+    match o with
+    | OCheck => match check_world w with inr fl => inr fl | inl w => inl (w, no_effect) end
+    | OLeft => match finish_all w with
+               | inr fl => inr fl
+               | inl w => inl (w, {| r_ret := None; r_outs := []; r_left := Some (left_all w) |})
+               end
+    | OClear => inl (world0, no_effect)                                  (* clears and deletes every scope *)
+    | OIgnoreOtherCalls => inl (map_kids set_ignore w, no_effect)
+    | OEnable => inl (map_kids (fun m => set_enabled m true) w, no_effect)
+    | ODisable => inl (map_kids (fun m => set_enabled m false) w, no_effect)
+    | _ => match step fx (w_g w) o with                                  (* expectNCalls, actualCall, strictOrder: this mock only *)
+           | inr fl => inr fl
+           | inl (g, r) => inl ({| w_g := g; w_kids := w_kids w |}, r)
+           end
+    end
+  else
+    match step fx (kid s w) o with
+    | inr fl => inr fl
+    | inl (m, r) => inl ({| w_g := w_g w; w_kids := put_kid s m (w_kids w) |}, r)
+    end.
+
+Fixpoint runw_from (fx : bool) (w : world) (i : N) (ops : list (N * op)) (a : acc) : obs :=
+  match ops with
+  | [] => mk_obs None a
+  | o :: r => match stepw fx w o with
+              | inr fl => mk_obs (Some (i, fl)) a
+              | inl (w', rv) => runw_from fx w' (i + 1)%N r (add_effect a rv)
+              end
+  end.
+Definition runw_gen (fx : bool) (ops : list (N * op)) : obs := runw_from fx world0 0%N ops acc0.
+Definition runw : list (N * op) -> obs := runw_gen true.
+Definition runw_old : list (N * op) -> obs := runw_gen false.
+
+(* ================================================================ the property, model-free (no flags, no candidate lists)
+   Judged scenarios ("canonical"): configuration (strictOrder / ignoreOtherCalls on any scope), expectations, actual calls, one
+   final mock().checkExpectations().  No parameter name twice and at most one onObject in one actual call, no
+   ignoreOtherParameters, and per function either every expectation names an object or none does and no call passes one (an
+   expectation without onObject accepts a call on any object -- like ignoreOtherParameters this makes a call fit expectations of
+   different shape, and such scenarios are checked for model = implementation only).  In this fragment a call matches an
+   expectation iff same function, same object and the same set of (parameter name, value) and output parameter names -- every
+   expectation set is unambiguous in the sense of the property. *)
+Record sexp := { sx_n : N; sx_f : name; sx_ps : list (name * pv); sx_ret : option pv; sx_obj : option Z;
+                 sx_outs : list (name * list N) }.
+Record scall := { sc_f : name; sc_items : list item; sc_want : bool }.
+Definition sc_ps (c : scall) : list (name * pv) :=
+  flat_map (fun it => match it with IIn n v => [(n, v)] | _ => [] end) (sc_items c).
+Definition in_names (its : list item) : list name := flat_map (fun it => match it with IIn n _ => [n] | _ => [] end) its.
+Definition out_names (its : list item) : list name := flat_map (fun it => match it with IOut n _ => [n] | _ => [] end) its.
+Definition objs_of (its : list item) : list Z := flat_map (fun it => match it with IObj a => [a] | _ => [] end) its.
+
+Fixpoint nodup_names (l : list name) : bool :=
+  match l with [] => true | x :: r => negb (existsb (N.eqb x) r) && nodup_names r end.
+
+(* a parameter list contains (n, v): the first parameter named n has an equal value (getValueByName takes the first) *)
+Definition lookup (n : name) (ps : list (name * pv)) : option pv :=
+  match find (fun x => (fst x =? n)%N) ps with Some x => Some (snd x) | None => None end.
+Definition has_pv (ps : list (name * pv)) (x : name * pv) : bool :=
+  match lookup (fst x) ps with Some v => veq v (snd x) | None => false end.
+Definition has_name {A} (n : name) (l : list (name * A)) : bool := existsb (fun x => (fst x =? n)%N) l.
+(* expectation e has room for what the call passes with this item *)
+Definition accepts (e : sexp) (it : item) : bool :=
+  match it with
+  | IIn n v => has_pv (sx_ps e) (n, v)
+  | IOut n _ => has_name n (sx_outs e)
+  | IObj a => match sx_obj e with Some b => (b =? a)%Z | None => true end
+  end.
+Definition agrees_upto (e : sexp) (its : list item) : bool := forallb (accepts e) its.
+(* everything the expectation names was passed *)
+Definition covers (e : sexp) (its : list item) : bool :=
+  forallb (fun q => existsb (N.eqb (fst q)) (in_names its)) (sx_ps e) &&
+  forallb (fun q => existsb (N.eqb (fst q)) (out_names its)) (sx_outs e) &&
+  match sx_obj e with Some _ => negb (match objs_of its with [] => true | _ => false end) | None => true end.
+(* the call (f, items) is exactly what expectation e describes *)
+Definition matches (e : sexp) (f : name) (its : list item) : bool :=
+  (sx_f e =? f)%N && agrees_upto e its && covers e its.
+(* two calls have the same shape *)
+Definition opt_z_eqb (a b : option Z) : bool :=
+  match a, b with Some x, Some y => (x =? y)%Z | None, None => true | _, _ => false end.
+Definition same_call (c d : scall) : bool :=
+  (sc_f c =? sc_f d)%N && forallb (has_pv (sc_ps d)) (sc_ps c) && forallb (has_pv (sc_ps c)) (sc_ps d) &&
+  forallb (fun n => existsb (N.eqb n) (out_names (sc_items d))) (out_names (sc_items c)) &&
+  forallb (fun n => existsb (N.eqb n) (out_names (sc_items c))) (out_names (sc_items d)) &&
+  opt_z_eqb (hd_error (objs_of (sc_items c))) (hd_error (objs_of (sc_items d))).
+
+(* --- one scope *)
 Record canon := { k_strict : bool; k_ignore : bool; k_exps : list sexp; k_calls : list scall }.
 
+Definition call_ok (c : scall) : bool :=
+  nodup_names (in_names (sc_items c)) && nodup_names (out_names (sc_items c)) && (length (objs_of (sc_items c)) <=? 1)%nat.
+(* per function: every expectation with an object, or none and no call passes one *)
+Definition obj_uniform (es : list sexp) (cs : list scall) : bool :=
+  forallb (fun e => match sx_obj e with
+                    | Some _ => forallb (fun e' => negb (sx_f e' =? sx_f e)%N || match sx_obj e' with Some _ => true | None => false end) es
+                    | None => forallb (fun c => negb (sc_f c =? sx_f e)%N || match objs_of (sc_items c) with [] => true | _ => false end) cs
+                    end) es.
+Definition judged (k : canon) : bool := forallb call_ok (k_calls k) && obj_uniform (k_exps k) (k_calls k).
+
+(* calls that ignoreOtherCalls swallows never reach the matching *)
+Definition ignored (k : canon) (c : scall) : bool := k_ignore k && negb (existsb (fun e => (sx_f e =? sc_f c)%N) (k_exps k)).
+Definition checked_calls (k : canon) : list scall := filter (fun c => negb (ignored k c)) (k_calls k).
+
+(* --- verdict clause: multiset of actual calls = multiset of expected calls expanded by their counts (keyed by call shape) *)
+Definition count_calls (c : scall) (cs : list scall) : N := N.of_nat (length (filter (same_call c) cs)).
+Definition capacity (es : list sexp) (c : scall) : N :=
+  fold_right (fun e a => if matches e (sc_f c) (sc_items c) then (sx_n e + a)%N else a) 0%N es.
+Definition multiset_ok (es : list sexp) (cs : list scall) : bool :=
+  forallb (fun c => (count_calls c cs =? capacity es c)%N) cs &&
+  forallb (fun e => (sx_n e =? 0)%N || existsb (fun c => matches e (sc_f c) (sc_items c)) cs) es.
+(* strict order: the k-th call is what the k-th expected call (expectations repeated by their counts, in order) describes *)
+Fixpoint expand (es : list sexp) : list sexp :=
+  match es with [] => [] | e :: r => repeat e (N.to_nat (sx_n e)) ++ expand r end.
+Fixpoint seq_ok (xs : list sexp) (cs : list scall) : bool :=
+  match xs, cs with
+  | [], [] => true
+  | e :: xr, c :: cr => matches e (sc_f c) (sc_items c) && seq_ok xr cr
+  | _, _ => false
+  end.
+Definition verdict_ok (k : canon) : bool :=
+  if k_strict k then seq_ok (expand (k_exps k)) (checked_calls k) else multiset_ok (k_exps k) (checked_calls k).
+
+(* --- diagnosis, return-value and output clauses: the reference semantics M.  Remaining capacities only. *)
+Record mexp := { x_e : sexp; x_left : N; x_done : N; x_lo : N; x_hi : N; x_ooo : bool }.
+Definition x_open (x : mexp) : bool := (0 <? x_left x)%N.
+Fixpoint init_m (strict : bool) (from : N) (es : list sexp) : list mexp :=
+  match es with
+  | [] => []
+  | e :: r => {| x_e := e; x_left := sx_n e; x_done := 0; x_lo := if strict then (from + 1)%N else 0%N;
+                 x_hi := if strict then (from + sx_n e)%N else 0%N; x_ooo := false |} :: init_m strict (from + sx_n e)%N r
+  end.
+(* the first open expectation that is exactly the call is consumed *)
+Fixpoint consume (f : name) (its : list item) (order : N) (xs : list mexp) : option (list mexp * sexp) :=
+  match xs with
+  | [] => None
+  | x :: r =>
+      if x_open x && matches (x_e x) f its then
+        let ooo := if negb (x_lo x =? 0)%N && ((order <? x_lo x)%N || (x_hi x <? order)%N) then true else x_ooo x in
+        Some ({| x_e := x_e x; x_left := (x_left x - 1)%N; x_done := (x_done x + 1)%N; x_lo := x_lo x; x_hi := x_hi x; x_ooo := ooo |} :: r,
+              x_e x)
+      else match consume f its order r with Some (r', v) => Some (x :: r', v) | None => None end
+  end.
+(* the bytes the consumed expectation returns through each output parameter the call passed *)
+Definition lookup_out (n : name) (outs : list (name * list N)) : list N :=
+  match find (fun x => (fst x =? n)%N) outs with Some x => snd x | None => [] end.
+Definition out_bytes (e : sexp) (its : list item) : list (list N) := map (fun n => lookup_out n (sx_outs e)) (out_names its).
+(* why a call that cannot be consumed deviates: (kind, deferred) -- a missing parameter or object only shows when the call is
+   finished, i.e. at the next operation on that scope unless the return value is asked for at once *)
+Fixpoint first_dead (f : name) (xs : list mexp) (seen rest : list item) : option item :=
+  match rest with
+  | [] => None
+  | p :: r => if existsb (fun x => x_open x && (sx_f (x_e x) =? f)%N && agrees_upto (x_e x) (seen ++ [p])) xs
+              then first_dead f xs (seen ++ [p]) r else Some p
+  end.
+Inductive dkind := DUnexpected (f : name) | DAdditional (f : name) (nth : N) | DParamName (f p : name) | DParamValue (f p : name)
+                 | DParamMissing (f : name) | DNotFulfilled | DOutOfOrder
+                 | DOutName (f p : name) | DOutType (f p : name) | DObjectUnexpected (f : name) | DObjectMissing (f : name).
+Definition params_covered (e : sexp) (its : list item) : bool :=
+  forallb (fun q => existsb (N.eqb (fst q)) (in_names its)) (sx_ps e) &&
+  forallb (fun q => existsb (N.eqb (fst q)) (out_names its)) (sx_outs e).
+Definition deviation (f : name) (its : list item) (xs : list mexp) : dkind * bool :=
+  if negb (existsb (fun x => x_open x && (sx_f (x_e x) =? f)%N) xs) then
+    let n := fold_right (fun x a => if (sx_f (x_e x) =? f)%N then (x_done x + a)%N else a) 0%N xs in
+    (if (0 <? n)%N then DAdditional f (n + 1)%N else DUnexpected f, false)
+  else match first_dead f xs [] its with
+       | Some (IIn p _) => (if existsb (fun x => (sx_f (x_e x) =? f)%N && has_name p (sx_ps (x_e x))) xs
+                            then DParamValue f p else DParamName f p, false)
+       | Some (IOut p _) => (if existsb (fun x => (sx_f (x_e x) =? f)%N && has_name p (sx_outs (x_e x))) xs
+                             then DOutType f p else DOutName f p, false)
+       | Some (IObj _) => (DObjectUnexpected f, false)
+       | None => (if existsb (fun x => x_open x && (sx_f (x_e x) =? f)%N && agrees_upto (x_e x) its && negb (params_covered (x_e x) its)) xs
+                  then DParamMissing f else DObjectMissing f, true)
+       end.
+
+(* the state of one scope in M: capacities, number of checked calls so far, the deviation that waits for the call to be finished *)
+Record mst := { s_xs : list mexp; s_order : N; s_pend : option dkind }.
+(* one actual call: the new state and what the call hands back (value, expected prefix of every output buffer; [] = nothing
+   demanded), or the failure it raises *)
+Definition m_call (ign : bool) (known : name -> bool) (st : mst) (c : scall)
+  : (mst * (option (option pv) * list (list N))) + dkind :=
+  match s_pend st with
+  | Some d => inr d
+  | None =>
+      let nothing := map (fun _ => @nil N) (out_names (sc_items c)) in
+      if ign && negb (known (sc_f c)) then inl (st, (if sc_want c then Some None else None, nothing))
+      else match consume (sc_f c) (sc_items c) (s_order st + 1)%N (s_xs st) with
+           | Some (xs', e) => inl ({| s_xs := xs'; s_order := (s_order st + 1)%N; s_pend := None |},
+                                   (if sc_want c then Some (sx_ret e) else None, out_bytes e (sc_items c)))
+           | None => let (d, deferred) := deviation (sc_f c) (sc_items c) (s_xs st) in
+                     if deferred && negb (sc_want c)
+                     then inl ({| s_xs := s_xs st; s_order := (s_order st + 1)%N; s_pend := Some d |}, (None, nothing))
+                     else inr d
+           end
+  end.
+(* the final mock().checkExpectations() over the scopes in creation order *)
+Definition m_final (sts : list mst) : option dkind :=
+  match flat_map (fun st => match s_pend st with Some d => [d] | None => [] end) sts with
+  | d :: _ => Some d
+  | [] => if existsb (fun st => existsb x_open (s_xs st)) sts then Some DNotFulfilled
+          else if existsb (fun st => existsb x_ooo (s_xs st)) sts then Some DOutOfOrder
+          else None
+  end.
+
+Record mres := { mr_fail : option (N * dkind); mr_rets : list (option pv); mr_outs : list (list N) }.
+Record macc := { ma_rets : list (option pv); ma_outs : list (list N) }.     (* reversed *)
+Definition macc0 : macc := {| ma_rets := []; ma_outs := [] |}.
+Definition macc_add (a : macc) (r : option (option pv) * list (list N)) : macc :=
+  {| ma_rets := match fst r with Some x => x :: ma_rets a | None => ma_rets a end; ma_outs := rev (snd r) ++ ma_outs a |}.
+Definition mk_mres (fl : option (N * dkind)) (a : macc) : mres :=
+  {| mr_fail := fl; mr_rets := rev (ma_rets a); mr_outs := rev (ma_outs a) |}.
+
+Fixpoint m_calls (ign : bool) (known : name -> bool) (st : mst) (i : N) (cs : list scall) (a : macc) : mres :=
+  match cs with
+  | [] => mk_mres (match m_final [st] with Some d => Some (i, d) | None => None end) a
+  | c :: r => match m_call ign known st c with
+              | inr d => mk_mres (Some (i, d)) a
+              | inl (st', rv) => m_calls ign known st' (i + 1)%N r (macc_add a rv)
+              end
+  end.
+Definition mst0 (strict : bool) (es : list sexp) : mst := {| s_xs := init_m strict 0 es; s_order := 0; s_pend := None |}.
+Definition knows (es : list sexp) (f : name) : bool := existsb (fun e => (sx_f e =? f)%N) es.
+Definition expected_res (k : canon) : mres :=
+  let i0 := ((if k_strict k then 1 else 0) + (if k_ignore k then 1 else 0) + N.of_nat (length (k_exps k)))%N in
+  m_calls (k_ignore k) (knows (k_exps k)) (mst0 (k_strict k) (k_exps k)) i0 (k_calls k) macc0.
+Definition expected (k : canon) : option (N * dkind) * list (option pv) := (mr_fail (expected_res k), mr_rets (expected_res k)).
+Definition expected_outs (k : canon) : list (list N) := mr_outs (expected_res k).
+
+Definition dkind_of (k : fkind) : option dkind :=
+  match k with
+  | FUnexpectedCall f => Some (DUnexpected f) | FAdditionalCall f n => Some (DAdditional f n)
+  | FParamName f p => Some (DParamName f p) | FParamValue f p => Some (DParamValue f p)
+  | FParamMissing f _ => Some (DParamMissing f) | FNotFulfilled => Some DNotFulfilled | FOutOfOrder => Some DOutOfOrder
+  | FOutName f p => Some (DOutName f p) | FOutType f p => Some (DOutType f p)
+  | FObjectUnexpected f => Some (DObjectUnexpected f) | FObjectMissing f => Some (DObjectMissing f)
+  | FCannotHappen => None
+  end.
+Definition dkind_eqb (a b : dkind) : bool :=
+  match a, b with
+  | DUnexpected f, DUnexpected g => (f =? g)%N
+  | DAdditional f n, DAdditional g m => (f =? g)%N && (n =? m)%N
+  | DParamName f p, DParamName g q | DParamValue f p, DParamValue g q
+  | DOutName f p, DOutName g q | DOutType f p, DOutType g q => (f =? g)%N && (p =? q)%N
+  | DParamMissing f, DParamMissing g | DObjectUnexpected f, DObjectUnexpected g | DObjectMissing f, DObjectMissing g => (f =? g)%N
+  | DNotFulfilled, DNotFulfilled | DOutOfOrder, DOutOfOrder => true
+  | _, _ => false
+  end.
+Definition opt_pv_eqb (a b : option pv) : bool :=
+  match a, b with Some x, Some y => pv_eqb x y | None, None => true | _, _ => false end.
+Fixpoint list_eqb {A} (eqb : A -> A -> bool) (a b : list A) : bool :=
+  match a, b with [] , [] => true | x :: a', y :: b' => eqb x y && list_eqb eqb a' b' | _, _ => false end.
+(* every output buffer begins with the bytes the consumed expectation returns *)
+Definition outs_ok (want got : list (list N)) : bool := list_eqb is_prefix want got.
+
+(* --- parsing one scope's scenario *)
 Fixpoint parse_calls (ops : list op) : option (list scall) :=
   match ops with
   | [OCheck] => Some []
-  | OCall f ps w :: r => match parse_calls r with Some l => Some ((f, ps, w) :: l) | None => None end
+  | OCall f its w :: r => match parse_calls r with
+                          | Some l => Some ({| sc_f := f; sc_items := its; sc_want := w |} :: l)
+                          | None => None
+                          end
   | _ => None
   end.
 Fixpoint parse_exps (ops : list op) : option (list sexp * list scall) :=
   match ops with
-  | OExpect n f ps ret false :: r => match parse_exps r with Some (es, cs) => Some ((n, f, ps, ret) :: es, cs) | None => None end
+  | OExpect n f ps outs obj ret false :: r =>
+      match parse_exps r with
+      | Some (es, cs) => Some ({| sx_n := n; sx_f := f; sx_ps := ps; sx_ret := ret; sx_obj := obj; sx_outs := outs |} :: es, cs)
+      | None => None
+      end
   | _ => match parse_calls ops with Some cs => Some ([], cs) | None => None end
   end.
 Definition parse (ops : list op) : option canon :=
@@ -371,144 +821,139 @@ Definition parse (ops : list op) : option canon :=
   | None => None
   end.
 
-Fixpoint nodup_names (l : list name) : bool :=
-  match l with [] => true | x :: r => negb (existsb (N.eqb x) r) && nodup_names r end.
-Definition judged (k : canon) : bool := forallb (fun c => nodup_names (map fst (sc_ps c))) (k_calls k).
-
-(* a parameter list contains (n, v): the first parameter named n has an equal value (getValueByName takes the first) *)
-Definition lookup (n : name) (ps : list (name * pv)) : option pv :=
-  match find (fun x => (fst x =? n)%N) ps with Some x => Some (snd x) | None => None end.
-Definition has_pv (ps : list (name * pv)) (x : name * pv) : bool :=
-  match lookup (fst x) ps with Some v => veq v (snd x) | None => false end.
-(* the call (f, ps) is exactly what expectation e describes: same function, every passed parameter is expected with that value,
-   every expected parameter was passed *)
-Definition matches (e : sexp) (f : name) (ps : list (name * pv)) : bool :=
-  (sx_f e =? f)%N && forallb (has_pv (sx_ps e)) ps && forallb (fun q => existsb (fun x => (fst x =? fst q)%N) ps) (sx_ps e).
-(* two calls have the same shape *)
-Definition same_call (c d : scall) : bool :=
-  (sc_f c =? sc_f d)%N && forallb (has_pv (sc_ps d)) (sc_ps c) && forallb (has_pv (sc_ps c)) (sc_ps d).
-
-(* calls that ignoreOtherCalls swallows never reach the matching *)
-Definition ignored (k : canon) (c : scall) : bool := k_ignore k && negb (existsb (fun e => (sx_f e =? sc_f c)%N) (k_exps k)).
-Definition checked_calls (k : canon) : list scall := filter (fun c => negb (ignored k c)) (k_calls k).
-
-(* --- verdict clause: multiset of actual calls = multiset of expected calls expanded by their counts (keyed by call shape) *)
-Definition count_calls (c : scall) (cs : list scall) : N := N.of_nat (length (filter (same_call c) cs)).
-Definition capacity (es : list sexp) (c : scall) : N :=
-  fold_right (fun e a => if matches e (sc_f c) (sc_ps c) then (sx_n e + a)%N else a) 0%N es.
-Definition multiset_ok (es : list sexp) (cs : list scall) : bool :=
-  forallb (fun c => (count_calls c cs =? capacity es c)%N) cs &&
-  forallb (fun e => (sx_n e =? 0)%N || existsb (fun c => matches e (sc_f c) (sc_ps c)) cs) es.
-(* strict order: the k-th call is what the k-th expected call (expectations repeated by their counts, in order) describes *)
-Fixpoint expand (es : list sexp) : list sexp :=
-  match es with [] => [] | e :: r => repeat e (N.to_nat (sx_n e)) ++ expand r end.
-Fixpoint seq_ok (xs : list sexp) (cs : list scall) : bool :=
-  match xs, cs with
-  | [], [] => true
-  | e :: xr, c :: cr => matches e (sc_f c) (sc_ps c) && seq_ok xr cr
+Definition fail_ok (got : option (N * failure)) (want : option (N * dkind)) : bool :=
+  match got, want with
+  | None, None => true
+  | Some (i, fl), Some (j, d) => (i =? j)%N && match dkind_of (f_kind fl) with Some d' => dkind_eqb d' d | None => false end
   | _, _ => false
   end.
-Definition verdict_ok (k : canon) : bool :=
-  if k_strict k then seq_ok (expand (k_exps k)) (checked_calls k) else multiset_ok (k_exps k) (checked_calls k).
+Definition passed_obs (o : obs) : bool := match o_fail o with None => true | Some _ => false end.
 
-(* --- diagnosis and return-value clauses: the reference semantics M.  Remaining capacities only. *)
-Record mexp := { x_e : sexp; x_left : N; x_done : N; x_lo : N; x_hi : N; x_ooo : bool }.
-Definition x_open (x : mexp) : bool := (0 <? x_left x)%N.
-Fixpoint init_m (strict : bool) (from : N) (es : list sexp) : list mexp :=
-  match es with
-  | [] => []
-  | e :: r => {| x_e := e; x_left := sx_n e; x_done := 0; x_lo := if strict then (from + 1)%N else 0%N;
-                 x_hi := if strict then (from + sx_n e)%N else 0%N; x_ooo := false |} :: init_m strict (from + sx_n e)%N r
-  end.
-(* the first open expectation that is exactly the call is consumed *)
-Fixpoint consume (f : name) (ps : list (name * pv)) (order : N) (xs : list mexp) : option (list mexp * option pv) :=
-  match xs with
-  | [] => None
-  | x :: r =>
-      if x_open x && matches (x_e x) f ps then
-        let ooo := if negb (x_lo x =? 0)%N && ((order <? x_lo x)%N || (x_hi x <? order)%N) then true else x_ooo x in
-        Some ({| x_e := x_e x; x_left := (x_left x - 1)%N; x_done := (x_done x + 1)%N; x_lo := x_lo x; x_hi := x_hi x; x_ooo := ooo |} :: r,
-              sx_ret (x_e x))
-      else match consume f ps order r with Some (r', v) => Some (x :: r', v) | None => None end
-  end.
-(* why a call that cannot be consumed deviates: (kind, deferred) -- a missing parameter only shows when the call is finished,
-   i.e. at the next operation unless the return value is asked for at once *)
-Definition agrees_upto (e : sexp) (ps : list (name * pv)) : bool := forallb (has_pv (sx_ps e)) ps.
-Fixpoint first_dead (f : name) (xs : list mexp) (seen rest : list (name * pv)) : option name :=
-  match rest with
-  | [] => None
-  | p :: r => if existsb (fun x => x_open x && (sx_f (x_e x) =? f)%N && agrees_upto (x_e x) (seen ++ [p])) xs
-              then first_dead f xs (seen ++ [p]) r else Some (fst p)
-  end.
-Inductive dkind := DUnexpected (f : name) | DAdditional (f : name) (nth : N) | DParamName (f p : name) | DParamValue (f p : name)
-                 | DParamMissing (f : name) | DNotFulfilled | DOutOfOrder.
-Definition deviation (f : name) (ps : list (name * pv)) (xs : list mexp) : dkind * bool :=
-  if negb (existsb (fun x => x_open x && (sx_f (x_e x) =? f)%N) xs) then
-    let n := fold_right (fun x a => if (sx_f (x_e x) =? f)%N then (x_done x + a)%N else a) 0%N xs in
-    (if (0 <? n)%N then DAdditional f (n + 1)%N else DUnexpected f, false)
-  else match first_dead f xs [] ps with
-       | Some p => (if existsb (fun x => (sx_f (x_e x) =? f)%N && existsb (fun q => (fst q =? p)%N) (sx_ps (x_e x))) xs
-                    then DParamValue f p else DParamName f p, false)
-       | None => (DParamMissing f, true)
-       end.
-(* the expected observation: failing operation index + diagnosis, values returned *)
-Fixpoint m_calls (ign : bool) (known : name -> bool) (xs : list mexp) (order : N) (i : N) (pending : option dkind)
-                 (cs : list scall) (rets : list (option pv)) : option (N * dkind) * list (option pv) :=
-  match pending with
-  | Some d => (Some (i, d), rev rets)
-  | None =>
-    match cs with
-    | [] => if existsb x_open xs then (Some (i, DNotFulfilled), rev rets)
-            else if existsb x_ooo xs then (Some (i, DOutOfOrder), rev rets)
-            else (None, rev rets)
-    | c :: r =>
-        if ign && negb (known (sc_f c)) then m_calls ign known xs order (i + 1)%N None r (if sc_want c then None :: rets else rets)
-        else match consume (sc_f c) (sc_ps c) (order + 1)%N xs with
-             | Some (xs', v) => m_calls ign known xs' (order + 1)%N (i + 1)%N None r (if sc_want c then v :: rets else rets)
-             | None => let (d, deferred) := deviation (sc_f c) (sc_ps c) xs in
-                       if deferred && negb (sc_want c) then m_calls ign known xs (order + 1)%N (i + 1)%N (Some d) r rets
-                       else (Some (i, d), rev rets)
-             end
-    end
-  end.
-Definition expected (k : canon) : option (N * dkind) * list (option pv) :=
-  let i0 := ((if k_strict k then 1 else 0) + (if k_ignore k then 1 else 0) + N.of_nat (length (k_exps k)))%N in
-  m_calls (k_ignore k) (fun f => existsb (fun e => (sx_f e =? f)%N) (k_exps k)) (init_m (k_strict k) 0 (k_exps k)) 0 i0 None (k_calls k) [].
-
-Definition dkind_of (k : fkind) : option dkind :=
-  match k with
-  | FUnexpectedCall f => Some (DUnexpected f) | FAdditionalCall f n => Some (DAdditional f n)
-  | FParamName f p => Some (DParamName f p) | FParamValue f p => Some (DParamValue f p)
-  | FParamMissing f _ => Some (DParamMissing f) | FNotFulfilled => Some DNotFulfilled | FOutOfOrder => Some DOutOfOrder
-  | FObjectMissing _ | FCannotHappen => None
-  end.
-Definition dkind_eqb (a b : dkind) : bool :=
-  match a, b with
-  | DUnexpected f, DUnexpected g => (f =? g)%N
-  | DAdditional f n, DAdditional g m => (f =? g)%N && (n =? m)%N
-  | DParamName f p, DParamName g q | DParamValue f p, DParamValue g q => (f =? g)%N && (p =? q)%N
-  | DParamMissing f, DParamMissing g => (f =? g)%N
-  | DNotFulfilled, DNotFulfilled | DOutOfOrder, DOutOfOrder => true
-  | _, _ => false
-  end.
-Definition opt_pv_eqb (a b : option pv) : bool :=
-  match a, b with Some x, Some y => pv_eqb x y | None, None => true | _, _ => false end.
-Fixpoint list_eqb {A} (eqb : A -> A -> bool) (a b : list A) : bool :=
-  match a, b with [] , [] => true | x :: a', y :: b' => eqb x y && list_eqb eqb a' b' | _, _ => false end.
-
-(* spec: (1) the scenario passes iff the multisets (strict: the sequences) agree; (2) a failure is the first deviation, once,
-   with the matching diagnosis; (3) every call returns the value of the expectation it consumed *)
+(* spec of a scenario on the global mock only: (1) the scenario passes iff the multisets (strict: the sequences) agree; (2) a
+   failure is the first deviation, once, with the matching diagnosis; (3) every call returns the value and the output bytes of
+   the expectation it consumed *)
 Definition spec (ops : list op) (o : obs) : bool :=
   match parse ops with
   | None => true
   | Some k =>
       if negb (judged k) then true else
-      let (ef, er) := expected k in
-      Bool.eqb (match o_fail o with None => true | Some _ => false end) (verdict_ok k)
-      && match o_fail o, ef with
-         | None, None => true
-         | Some (i, fl), Some (j, d) => (i =? j)%N && match dkind_of (f_kind fl) with Some d' => dkind_eqb d' d | None => false end
-         | _, _ => false
-         end
-      && list_eqb opt_pv_eqb (o_rets o) er
+      Bool.eqb (passed_obs o) (verdict_ok k)
+      && fail_ok (o_fail o) (fst (expected k))
+      && list_eqb opt_pv_eqb (o_rets o) (snd (expected k))
+      && outs_ok (expected_outs k) (o_outs o)
   end.
+
+(* ================================================================ the property over the global mock and its named scopes *)
+Record canonw := { kw_cfg : list (N * bool);          (* (scope, false = strictOrder | true = ignoreOtherCalls) *)
+                   kw_exps : list (N * sexp); kw_calls : list (N * scall) }.
+
+Fixpoint parsew_calls (ops : list (N * op)) : option (list (N * scall)) :=
+  match ops with
+  | [(0%N, OCheck)] => Some []
+  | (s, OCall f its w) :: r => match parsew_calls r with
+                               | Some l => Some ((s, {| sc_f := f; sc_items := its; sc_want := w |}) :: l)
+                               | None => None
+                               end
+  | _ => None
+  end.
+Fixpoint parsew_exps (ops : list (N * op)) : option (list (N * sexp) * list (N * scall)) :=
+  match ops with
+  | (s, OExpect n f ps outs obj ret false) :: r =>
+      match parsew_exps r with
+      | Some (es, cs) => Some ((s, {| sx_n := n; sx_f := f; sx_ps := ps; sx_ret := ret; sx_obj := obj; sx_outs := outs |}) :: es, cs)
+      | None => None
+      end
+  | _ => match parsew_calls ops with Some cs => Some ([], cs) | None => None end
+  end.
+Fixpoint parsew_cfg (ops : list (N * op)) : option canonw :=
+  match ops with
+  | (s, OStrict) :: r =>
+      match parsew_cfg r with
+      | Some k => Some {| kw_cfg := (s, false) :: kw_cfg k; kw_exps := kw_exps k; kw_calls := kw_calls k |}
+      | None => None
+      end
+  | (s, OIgnoreOtherCalls) :: r =>
+      match parsew_cfg r with
+      | Some k => Some {| kw_cfg := (s, true) :: kw_cfg k; kw_exps := kw_exps k; kw_calls := kw_calls k |}
+      | None => None
+      end
+  | _ => match parsew_exps ops with
+         | Some (es, cs) => Some {| kw_cfg := []; kw_exps := es; kw_calls := cs |}
+         | None => None
+         end
+  end.
+Definition parsew : list (N * op) -> option canonw := parsew_cfg.
+
+(* the scopes in the order mock("s") creates them: first mention *)
+Definition mention (acc : list N) (s : N) : list N := if (s =? 0)%N || existsb (N.eqb s) acc then acc else acc ++ [s].
+Definition scopes_of (k : canonw) : list N :=
+  fold_left mention (map fst (kw_cfg k) ++ map fst (kw_exps k) ++ map fst (kw_calls k)) [].
+(* ignoreOtherCalls() on mock() reaches every scope, existing (propagated) or created later (cloned); on a scope only that scope *)
+Definition ign_of (cfg : list (N * bool)) (s : N) : bool := existsb (fun c => snd c && ((fst c =? 0)%N || (fst c =? s)%N)) cfg.
+(* strictOrder() on mock() reaches mock() and the scopes created later (clone), i.e. not named by an earlier configuration
+   operation; on a scope that scope.  rc = the configuration operations, latest first *)
+Definition mentioned {A} (s : N) (l : list (N * A)) : bool := existsb (fun c => (fst c =? s)%N) l.
+Fixpoint strict_r (rc : list (N * bool)) (s : N) : bool :=
+  match rc with
+  | [] => false
+  | (t, b) :: older => strict_r older s || (negb b && ((t =? s)%N || ((t =? 0)%N && negb (mentioned s older))))
+  end.
+Definition strict_of (cfg : list (N * bool)) (s : N) : bool := strict_r (rev cfg) s.
+Definition of_scope {A} (s : N) (l : list (N * A)) : list A := map snd (filter (fun x => (fst x =? s)%N) l).
+(* what scope s sees of the scenario *)
+Definition scope_canon (k : canonw) (s : N) : canon :=
+  {| k_strict := strict_of (kw_cfg k) s; k_ignore := ign_of (kw_cfg k) s; k_exps := of_scope s (kw_exps k);
+     k_calls := of_scope s (kw_calls k) |}.
+Definition judgedw (k : canonw) : bool := forallb (fun s => judged (scope_canon k s)) (0%N :: scopes_of k).
+(* verdict clause: in EVERY scope the actual calls match the expectations one-to-one *)
+Definition verdictw_ok (k : canonw) : bool := forallb (fun s => verdict_ok (scope_canon k s)) (0%N :: scopes_of k).
+
+(* M over the scopes: each call is processed by its scope's state *)
+Fixpoint get_st (s : N) (sts : list (N * mst)) : mst :=
+  match sts with
+  | [] => {| s_xs := []; s_order := 0; s_pend := None |}
+  | (t, st) :: r => if (t =? s)%N then st else get_st s r
+  end.
+Fixpoint set_st (s : N) (st : mst) (sts : list (N * mst)) : list (N * mst) :=
+  match sts with
+  | [] => []
+  | (t, st') :: r => if (t =? s)%N then (t, st) :: r else (t, st') :: set_st s st r
+  end.
+Fixpoint mw_calls (k : canonw) (sts : list (N * mst)) (i : N) (cs : list (N * scall)) (a : macc) : mres :=
+  match cs with
+  | [] => mk_mres (match m_final (map snd sts) with Some d => Some (i, d) | None => None end) a
+  | (s, c) :: r => match m_call (ign_of (kw_cfg k) s) (knows (of_scope s (kw_exps k))) (get_st s sts) c with
+                   | inr d => mk_mres (Some (i, d)) a
+                   | inl (st', rv) => mw_calls k (set_st s st' sts) (i + 1)%N r (macc_add a rv)
+                   end
+  end.
+Definition expectedw (k : canonw) : mres :=
+  let i0 := N.of_nat (length (kw_cfg k) + length (kw_exps k)) in
+  mw_calls k (map (fun s => (s, mst0 (strict_of (kw_cfg k) s) (of_scope s (kw_exps k)))) (0%N :: scopes_of k)) i0 (kw_calls k) macc0.
+
+(* spec over the scopes: (1) passes iff in every scope the multisets (strict: sequences) agree; (2) first deviation, once, with
+   the matching diagnosis; (3) value and output bytes of the consumed expectation *)
+Definition specw (ops : list (N * op)) (o : obs) : bool :=
+  match parsew ops with
+  | None => true
+  | Some k =>
+      if negb (judgedw k) then true else
+      let r := expectedw k in
+      Bool.eqb (passed_obs o) (verdictw_ok k)
+      && fail_ok (o_fail o) (mr_fail r)
+      && list_eqb opt_pv_eqb (o_rets o) (mr_rets r)
+      && outs_ok (mr_outs r) (o_outs o)
+  end.
+
+(* validity of the values in a scenario: typed values in range, output data fits the caller's buffers *)
+Definition out_max : nat := 8.
+Definition op_valid (o : op) : bool :=
+  match o with
+  | OExpect _ _ ps outs obj ret _ =>
+      forallb (fun q => pv_valid (snd q)) ps && forallb (fun q => (length (snd q) <=? out_max)%nat) outs &&
+      match ret with Some v => pv_valid v | None => true end
+  | OCall _ its _ =>
+      forallb (fun it => match it with IIn _ v => pv_valid v | IOut _ buf => (length buf =? out_max)%nat | IObj _ => true end) its
+  | _ => true
+  end.
+Definition valid (ops : list (N * op)) : bool := forallb (fun so => op_valid (snd so)) ops.
